@@ -378,7 +378,8 @@ def suite_small(rng, tier, shard, nshards):
 # tier) ALL annotations with <= 3 intervals on a 5-point lattice x all (t_min, t_max) on a 7-point lattice incl. None
 
 GEN_FUNCTIONS = ("adjust_intervals", "adjust_events", "intervals_to_boundaries", "boundaries_to_intervals",
-                 "sort_labeled_intervals", "intervals_to_durations", "validate_intervals")
+                 "sort_labeled_intervals", "intervals_to_durations", "validate_intervals", "interpolate_intervals",
+                 "intervals_to_samples", "merge_labeled_intervals")
 GEN_SOURCES = {"adjust_intervals": "adjust_intervals", "adjust_events": "adjust_events", "boundaries": "boundaries",
                "small": "small", "merge_labeled_intervals": "merge_labeled_intervals"}
 
@@ -395,7 +396,8 @@ def as_gen(c):
 
 
 def suite_gen_utilint(rng, tier, shard, nshards):
-    for name in ("adjust_intervals", "adjust_events", "boundaries", "small", "merge_labeled_intervals"):
+    for name in ("adjust_intervals", "adjust_events", "boundaries", "small", "merge_labeled_intervals",
+                 "interpolate_intervals", "intervals_to_samples"):
         for c in SUITES[name](rng, "quick", shard, nshards):
             if c.op.startswith("util.") and c.op[5:] in GEN_FUNCTIONS:
                 yield as_gen(c)
@@ -432,8 +434,50 @@ def suite_gen_utilint(rng, tier, shard, nshards):
                                       np.array([F(x) for x in ev]), list(labs) if wl else None, fa, fb, "__"),
                                   tol=0.0, tag="small-scope", info={"events": [F(x) for x in ev], "labels": list(labs),
                                                                     "t_min": fa, "t_max": fb}, nontrivial=bool(ev)))
+    # interpolate / samples / merge on a small scope: every annotation with <= 2 intervals on the 5-point lattice against the
+    # grid of all lattice points and midpoints (one beyond each end), unsorted grids, zero / negative sample sizes
+    grid = [Fr(k, 2) for k in range(0, 14)]
+    anns = list(enum_annotations(pts, 2))
+    for ivs in anns:
+        idx += 1
+        if idx % nshards != shard:
+            continue
+        labs = [LABS[k % 3] for k in range(len(ivs))]
+        yield as_gen(interp_case(ivs, labs, grid, None if idx % 2 else "F", "small-scope"))
+        yield as_gen(interp_case(ivs, labs, list(reversed(grid[:3])), None, "small-scope-unsorted"))
+        for size in (Fr(1, 2), Fr(1), Fr(2), Fr(0), Fr(-1)):
+            yield as_gen(samples_case(ivs, labs, Fr(idx % 3, 4), size, None if idx % 2 else "F", "small-scope"))
+    yield as_gen(interp_case([], [], grid[:4], "F", "empty"))
+    yield as_gen(samples_case([], [], Fr(0), Fr(1), None, "empty"))
+    yield as_gen(samples_case([(Fr(0), Fr(0))], ["a"], Fr(0), Fr(0), None, "zero-over-zero"))
+    for x in anns:
+        for y in anns:
+            idx += 1
+            if idx % nshards != shard:
+                continue
+            yield as_gen(merge_case(x, [LABS[k % 3] for k in range(len(x))], y, [LABS[k % 2].upper() for k in range(len(y))],
+                                    "small-scope"))
+    # index_labels: (indices, {index: label}) with and without case folding; case twins, duplicates, empty list
+    alphabet = ["a", "A", "b", "B", "ab", "Ab", "", "c1", "C1", "Z", "z~"]
+    for k in range(40):
+        n = rng.randint(0, 8)
+        labs = [rng.choice(alphabet) for _ in range(n)]
+        for cs in (False, True):
+            yield Case("gen.utilint", ["index_labels", list(labs), cs],
+                       lambda labs=labs, cs=cs: (lambda r: [r[0], [[i, l] for i, l in sorted(r[1].items())]])(
+                           mir_eval.util.index_labels(list(labs), case_sensitive=cs)),
+                       tol=0.0, tag="index_labels:case_sensitive=%s" % cs,
+                       info={"op": "gen.utilint", "fn": "index_labels", "labels": list(labs), "case_sensitive": cs},
+                       nontrivial=n > 0)
+    for n in (0, 1, 2, 11, 101):
+        for prefix in ("__", "", "seg "):
+            items = [Fr(k) for k in range(n)]
+            yield Case("gen.utilint", ["generate_labels", items, prefix],
+                       lambda n=n, prefix=prefix: mir_eval.util.generate_labels(np.zeros(n), prefix),
+                       tol=0.0, tag="generate_labels", info={"op": "gen.utilint", "fn": "generate_labels", "n": n,
+                                                             "prefix": prefix}, nontrivial=n > 0)
     # the decimal places of intervals_to_boundaries (dyadic values: exact in binary64, not ties)
-    for q in (0, 1, 2, 3, 5, 7):
+    for q in (-1, 0, 1, 2, 3, 5, 7):
         for _ in range(6):
             ivs, _l = rand_annotation(rng)
             yield Case("gen.utilint", ["intervals_to_boundaries", [[s, e] for s, e in ivs], q],
@@ -993,7 +1037,37 @@ def gen_events_reuse(rng, tier, shard, nshards, boost):
             yield {"events": ev, "labels": d["labels"], "calls": calls}
 
 
+def check_index_labels(inp):
+    """the documented contract of index_labels: `labels[i] == index_to_label[indices[i]]` (after `str(.).lower()` unless
+    case_sensitive), equal labels <-> equal indices, indices are the ranks of the labels in sorted order (0 .. k-1)"""
+    labels, cs = list(inp["labels"]), bool(inp["case_sensitive"])
+    try:
+        idx, back = mir_eval.util.index_labels(list(labels), case_sensitive=cs)
+    except Exception as e:  # noqa: BLE001
+        return "index_labels raised %r" % (e,)
+    norm = labels if cs else [str(x).lower() for x in labels]
+    if len(idx) != len(labels):
+        return "%d indices for %d labels" % (len(idx), len(labels))
+    for i, (k, n) in enumerate(zip(idx, norm)):
+        if back.get(k) != n:
+            return "index_to_label[indices[%d]] = %r, the label is %r" % (i, back.get(k), n)
+    ranks = {n: r for r, n in enumerate(sorted(set(norm)))}
+    if list(idx) != [ranks[n] for n in norm]:
+        return "indices %r are not the ranks %r of the labels in sorted order" % (list(idx), [ranks[n] for n in norm])
+    if sorted(back) != list(range(len(ranks))):
+        return "index_to_label has keys %r for %d distinct labels" % (sorted(back), len(ranks))
+    return None
+
+
+def gen_index_labels(rng, tier, shard, nshards, boost):
+    alphabet = ["a", "A", "b", "B", "ab", "Ab", "", "c1", "C1", "Z", "z~", "seg 1", "Seg 1"]
+    for _ in range((60 if tier == "quick" else 600) * boost):
+        n = rng.randint(0, 9)
+        yield {"labels": [rng.choice(alphabet) for _ in range(n)], "case_sensitive": rng.random() < 0.5}
+
+
 CHECKERS = {
+    "util.index_labels": check_index_labels,
     "util.adjust_intervals:reuse": check_adjust_reuse,
     "util.adjust_events:reuse": check_events_reuse,
     "util.intervals_roundtrip_noisy": check_roundtrip_noisy,
@@ -1007,6 +1081,7 @@ CHECKERS = {
     "util.boundaries_roundtrip": check_roundtrip,
 }
 ORACLES = {
+    "util.index_labels": gen_index_labels,
     "util.adjust_intervals:reuse": gen_adjust_reuse,
     "util.adjust_events:reuse": gen_events_reuse,
     "util.intervals_roundtrip_noisy": gen_roundtrip_noisy,
@@ -1032,7 +1107,11 @@ def classify(suite, d):
         # a generated definition disagreeing with the function it was generated from: tried as an input of that function's
         # own statement-level oracle
         src = {"adjust_intervals": "adjust_intervals", "adjust_events": "adjust_events",
-               "merge_labeled_intervals": "merge_labeled_intervals", "boundaries_to_intervals": "boundaries"}.get(i.get("fn"))
+               "merge_labeled_intervals": "merge_labeled_intervals", "boundaries_to_intervals": "boundaries",
+               "interpolate_intervals": "interpolate_intervals",
+               "intervals_to_samples": "intervals_to_samples"}.get(i.get("fn"))
+        if i.get("fn") == "index_labels":
+            return "util.index_labels", {"labels": i["labels"], "case_sensitive": i["case_sensitive"]}
         return classify(src, d) if src else None
     if suite == "adjust_intervals":
         ivs = [tuple(r) for r in i["intervals"]]
